@@ -8,6 +8,7 @@ package main
 
 import (
 	"bytes"
+	"encoding/hex"
 	"fmt"
 	"os"
 	"path/filepath"
@@ -112,7 +113,14 @@ func c05Exec(h *c05Hist, line string) (res string) {
 		if i >= len(a) {
 			panic("c05-bad-op")
 		}
-		return unhx(a[i])
+		if a[i] == "-" {
+			return ""
+		}
+		b, err := hex.DecodeString(a[i])
+		if err != nil {
+			panic("c05-bad-op")
+		}
+		return string(b)
 	}
 	I := func(i int) int {
 		if i >= len(a) {
@@ -320,7 +328,7 @@ func c05Exec(h *c05Hist, line string) (res string) {
 	// ---- data validation
 	case "dv":
 		dv := xl.NewDataValidation(I(3)%2 == 0)
-		dv.SetSqref(R(1))
+		dv.SetSqref(S(1))
 		var err error
 		switch I(2) {
 		case 0:
@@ -352,7 +360,7 @@ func c05Exec(h *c05Hist, line string) (res string) {
 		return E(f.AddDataValidation(S(0), dv))
 	case "deldv":
 		if len(a) > 1 {
-			return E(f.DeleteDataValidation(S(0), R(1)))
+			return E(f.DeleteDataValidation(S(0), S(1)))
 		}
 		return E(f.DeleteDataValidation(S(0)))
 	// ---- conditional formats
@@ -937,9 +945,9 @@ func (g *c05Gen) opDV() {
 	}
 	if r.Chance(80) {
 		txt := r.Pick([]string{"A1>0", "\"<b>\"", "AND(A1<5,B1>\"&\")", "$E$1:$E$3", "1,2,3", "\"a,b\"", "Sheet1!$A$1:$A$5", "LEN(A1)<3", "x&y", "</formula1>", "<x/>", "a]]>b", "\"q\"\"q\"", "-5", "1.5"})
-		g.emit("h.dv", hx(g.sheet()), sq, g.istr(r.Intn(8)), g.istr(r.Intn(30)), hx(txt))
+		g.emit("h.dv", hx(g.sheet()), hx(sq), g.istr(r.Intn(8)), g.istr(r.Intn(30)), hx(txt))
 	} else if r.Bool() {
-		g.emit("h.deldv", hx(g.sheet()), sq)
+		g.emit("h.deldv", hx(g.sheet()), hx(sq))
 	} else {
 		g.emit("h.deldv", hx(g.sheet()))
 	}
